@@ -369,3 +369,7 @@ def run(chk):
     chk.guard('C15.T', check_type_strictness, chk)
     chk.guard('C15.H', check_wrappers, chk)
     chk.guard('C15.D', check_defaults, chk)
+    # arraySort / arrayIndexOf / mathMax order and match elements by the value comparison (shared with C11.U)
+    from . import c11
+    chk.rule('C11.U', 'shared with C11: array functions order and match elements with value_compare only')
+    chk.guard('C11.U', c11.check_consumers, chk)
